@@ -521,22 +521,46 @@ def caches(chk, P):
         raise AnalysisError("only %d lazily filled attributes found (5 confirmed by reading)" % found)
 
 
-def _under_is_none(fnode, target, attr):
+def _always_exits(stmts):
+    return bool(stmts) and isinstance(stmts[-1], (ast.Return, ast.Raise, ast.Continue, ast.Break))
+
+
+def _guard_walk(fnode, target, enters_none, leaves_filled):
+    """is `target` reached only where the cache attribute is still empty?  Recognised shapes:
+         if <attr is None>: ... target ...                (enters_none(test))
+         if <attr is not None>: return ...  ; ... target ...   (leaves_filled(test), body always exits)"""
     def guarded(node, under):
         if node is target:
             return under
         for field, val in ast.iter_fields(node):
-            kids = val if isinstance(val, list) else [val]
-            for k in kids:
-                if isinstance(k, ast.AST):
-                    u = under
-                    if isinstance(node, ast.If) and field == "body" and _tests_none(node.test, attr):
+            if isinstance(val, list):
+                u_seq = under
+                for k in val:
+                    if not isinstance(k, ast.AST):
+                        continue
+                    u = u_seq
+                    if isinstance(node, ast.If) and field == "body" and enters_none(node.test):
                         u = True
                     r = guarded(k, u)
                     if r is not None:
                         return r
+                    if isinstance(k, ast.If) and not k.orelse and leaves_filled(k.test) and _always_exits(k.body):
+                        u_seq = True          # past an early exit taken whenever the cache is filled
+            elif isinstance(val, ast.AST):
+                r = guarded(val, under)
+                if r is not None:
+                    return r
         return None
     return bool(guarded(fnode, False))
+
+
+def _under_is_none(fnode, target, attr):
+    return _guard_walk(fnode, target, lambda t: _tests_none(t, attr), lambda t: _tests_filled(t, attr))
+
+
+def _tests_filled(test, attr):
+    t = ast.unparse(test)
+    return t in ("self.%s is not None" % attr, "not self.%s is None" % attr, "self.%s" % attr, "not (self.%s is None)" % attr)
 
 
 def _tests_none(test, attr):
@@ -576,24 +600,16 @@ def _construction_only(ci, fi, depth=0):
 
 
 def _under_any_is_none(fnode, target):
-    """target lies in the body of an 'if self.<something> is None' / 'if not self.<something>' test"""
-    def guarded(node, under):
-        if node is target:
-            return under
-        for field, val in ast.iter_fields(node):
-            kids = val if isinstance(val, list) else [val]
-            for k in kids:
-                if isinstance(k, ast.AST):
-                    u = under
-                    if isinstance(node, ast.If) and field == "body":
-                        t = ast.unparse(node.test)
-                        if re.search(r"self\.\w+ is None", t) or re.search(r"not self\.\w+", t):
-                            u = True
-                    r = guarded(k, u)
-                    if r is not None:
-                        return r
-        return None
-    return bool(guarded(fnode, False))
+    """target lies in the body of an 'if self.<something> is None' / 'if not self.<something>' test, or after an early exit
+    taken when 'self.<something> is not None'"""
+    def enters(test):
+        t = ast.unparse(test)
+        return bool(re.search(r"self\.\w+ is None", t) or re.search(r"not self\.\w+", t))
+
+    def leaves(test):
+        t = ast.unparse(test)
+        return bool(re.fullmatch(r"self\.\w+ is not None|not self\.\w+ is None|self\.\w+|not \(self\.\w+ is None\)", t))
+    return _guard_walk(fnode, target, enters, leaves)
 
 
 def _cache_fill_only(ci, fi, depth=0):
